@@ -49,9 +49,18 @@ Definition is_peer_restarting (s : grinner) : bool :=
 Definition gr_step (s : grinner) (i : grinput) : grinner * list groutput :=
   match s, i with
   | GLlgrStaling r, GSessionDropped _ _ => (GLlgrStaling r, [])
-  | _, GSessionDropped (Some (fams, rt)) llgr => (GPeerRestarting fams llgr, [GStartTimer rt])
+  | _, GSessionDropped (Some (fams, rt)) llgr =>
+      (* stale_families = gp.families, then every LLGR family not yet contained (fix C10-5) *)
+      let stale := fold_left (fun acc f => if mem f acc then acc else acc ++ [f])
+                             (match llgr with Some lp => map fst lp | None => [] end) fams in
+      (GPeerRestarting stale llgr, [GStartTimer rt])
   | _, GSessionDropped None (Some lp) => (GLlgrStaling (dedup (map fst lp)), [GStartLlgrTimers lp])
-  | GPeerRestarting _ (Some lp), GTimerExpired => (GLlgrStaling (dedup (map fst lp)), [GStartLlgrTimers lp])
+  | GPeerRestarting stale (Some lp), GTimerExpired =>
+      (* stale families without LLGR are deleted now (fix C10-4) *)
+      let remaining := dedup (map fst lp) in
+      let expired := filter (fun f => negb (mem f remaining)) stale in
+      (GLlgrStaling remaining,
+       match expired with [] => [] | _ => [GDeleteStaleRoutes expired] end ++ [GStartLlgrTimers lp])
   | GPeerRestarting stale None, GTimerExpired => (GIdle, [GDeleteStaleRoutes stale])
   | GPeerRestarting stale _, GSessionEstablished gr_families =>
       let gr_set := dedup gr_families in
@@ -60,10 +69,10 @@ Definition gr_step (s : grinner) (i : grinput) : grinner * list groutput :=
       (match gr_set with [] => GIdle | _ => GPeerReconnected gr_set false end, outs)
   | GLlgrStaling remaining, GSessionEstablished gr_families =>
       let gr_set := dedup gr_families in
-      match gr_set with
-      | [] => (GIdle, GStopLlgrTimers :: match remaining with [] => [] | _ => [GDeleteLlgrStaleRoutes remaining] end)
-      | _ => (GPeerReconnected gr_set true, [GStopLlgrTimers])
-      end
+      (* staling families that are not re-negotiated are purged at once (fix C10-3) *)
+      let dropped := filter (fun f => negb (mem f gr_set)) remaining in
+      (match gr_set with [] => GIdle | _ => GPeerReconnected gr_set true end,
+       GStopLlgrTimers :: match dropped with [] => [] | _ => [GDeleteLlgrStaleRoutes dropped] end)
   | GLlgrStaling remaining, GLlgrTimerExpired f =>
       let r := fremove f remaining in
       (match r with [] => GIdle | _ => GLlgrStaling r end, [GDeleteLlgrStaleRoutes [f]])
@@ -103,8 +112,9 @@ Definition rib_restale (rib : list route) (fams : list fam) : list route :=
   map (fun r => if in_fams fams r then set_marks r true (r_llgr r) else r) rib.
 Definition rib_drop_stale (rib : list route) (fams : list fam) : list route :=
   filter (fun r => negb (in_fams fams r && r_stale r)) rib.
+(* drop_llgr_stale selects by the mark of the Source (fix C10-6) *)
 Definition rib_drop_llgr_stale (rib : list route) (fams : list fam) : list route :=
-  filter (fun r => negb (in_fams fams r && is_llgr_stale r)) rib.
+  filter (fun r => negb (in_fams fams r && r_llgr r)) rib.
 (* TableShard::mark_llgr_stale = restale_llgr then drop_no_llgr *)
 Definition rib_mark_llgr (rib : list route) (fams : list fam) : list route :=
   filter (fun r => negb (in_fams fams r && r_no_llgr r))
@@ -202,9 +212,38 @@ Definition apply_disconnect (h : hstate) (gr : option (list fam * N)) (llgr : op
       end
   end.
 
+(* gr_restart_timer_expired; [cur] are the LLGR timers that stay armed next to the new ones *)
+Definition restart_handler (h : hstate) (cur : list fam) : hstate :=
+  let '(g', outs) := gr_step (h_gr h) GTimerExpired in
+  let rib1 := rib_drop (h_rib h) (delete_fams outs) in
+  match start_llgr outs with
+  | Some l => upd_h h g' false (add_timers cur (map fst l)) (rib_mark_llgr rib1 (map fst l))
+  | None => upd_h h g' false cur rib1
+  end.
+
+(* llgr_timer_expired for family f (the timer slot itself is handled by the caller) *)
+Definition llgr_handler (h : hstate) (f : fam) : hstate :=
+  let '(g', outs) := gr_step (h_gr h) (GLlgrTimerExpired f) in
+  upd_h h g' (h_rtimer h) (h_ltimers h) (rib_drop_llgr_stale (h_rib h) (delete_llgr_fams outs)).
+
+(* the negotiated GR / LLGR sets restricted to the families of the session *)
+Definition norm_gr (fams : list fam) (gr : option (list fam * N * bool)) : option (list fam * N * bool) :=
+  match gr with
+  | Some (l, rt, nb) => match filter (fun f => mem f fams) l with [] => None | l' => Some (l', rt, nb) end
+  | None => None
+  end.
+Definition norm_llgr (fams : list fam) (ll : option (list (fam * N))) : option (list (fam * N)) :=
+  match ll with
+  | Some l => match filter (fun e => mem (fst e) fams) l with [] => None | l' => Some l' end
+  | None => None
+  end.
+
 Definition h_step (h : hstate) (e : hevent) : hstate :=
   match e with
-  | HUp fams gr llgr =>
+  | HUp fams gr0 llgr0 =>
+      (* apply_outputs (fix C10-7): only address families of the session are negotiated *)
+      let gr := norm_gr fams gr0 in
+      let llgr := norm_llgr fams llgr0 in
       match h_sess h with
       | Some _ => h
       | None =>
@@ -243,12 +282,8 @@ Definition h_step (h : hstate) (e : hevent) : hstate :=
   | HDown r =>
       match h_sess h with
       | Some s =>
-          (* session_loop: families dropped / marked are computed from what was negotiated,
-             before the reason is looked at *)
-          let gr_fams := match s_gr s with Some (l, _, _) => l | None => [] end in
-          let llgr_fams := match s_llgr s with Some l => map fst l | None => [] end in
-          let drop_fams := filter (fun f => negb (mem f gr_fams) && negb (mem f llgr_fams)) (s_fams s) in
-          let rib1 := rib_restale (rib_drop (h_rib h) drop_fams) gr_fams in
+          (* session_loop (fix C10-2): eligibility, including admin-down, is decided first;
+             the families kept and marked stale are derived from the result *)
           let gr' := match s_gr s with
                      | Some (l, rt, nbit) => if gr_applies r nbit then Some (l, rt) else None
                      | None => None
@@ -260,42 +295,28 @@ Definition h_step (h : hstate) (e : hevent) : hstate :=
                        end in
           let gr'' := if h_admin_down h then None else gr' in
           let llgr'' := if h_admin_down h then None else llgr' in
+          let gr_fams := match gr'' with Some (l, _) => l | None => [] end in
+          let llgr_fams := match llgr'' with Some l => map fst l | None => [] end in
+          let drop_fams := filter (fun f => negb (mem f gr_fams) && negb (mem f llgr_fams)) (s_fams s) in
+          (* every kept family is marked stale (fix C10-5) *)
+          let rib1 := rib_restale (rib_drop (h_rib h) drop_fams) (gr_fams ++ llgr_fams) in
           let h1 := {| h_gr := h_gr h; h_rtimer := h_rtimer h; h_ltimers := h_ltimers h; h_rib := rib1;
                        h_sess := None; h_gen := h_gen h; h_admin_down := h_admin_down h |} in
           apply_disconnect h1 gr'' llgr''
       | None => h
       end
   | HFailedConnect => apply_disconnect h None None
-  | HRestartTimer =>
-      if h_rtimer h then
-        let '(g', outs) := gr_step (h_gr h) GTimerExpired in
-        let rib1 := rib_drop (h_rib h) (delete_fams outs) in
-        match start_llgr outs with
-        | Some l => upd_h h g' false (add_timers (h_ltimers h) (map fst l)) (rib_mark_llgr rib1 (map fst l))
-        | None => upd_h h g' false (h_ltimers h) rib1
-        end
-      else h
+  | HRestartTimer => if h_rtimer h then restart_handler h (h_ltimers h) else h
   | HLlgrTimer f =>
       if mem f (h_ltimers h) then
-        let '(g', outs) := gr_step (h_gr h) (GLlgrTimerExpired f) in
-        upd_h h g' (h_rtimer h) (fremove f (h_ltimers h)) (rib_drop_llgr_stale (h_rib h) (delete_llgr_fams outs))
+        llgr_handler (upd_h h (h_gr h) (h_rtimer h) (fremove f (h_ltimers h)) (h_rib h)) f
       else h
   | HForceDown =>
       (* fire_gr_timer, fire_llgr_timers: the timers armed at the call run their handlers;
          LLGR timers started by the restart-timer handler are new tasks and stay pending *)
       let armed := h_ltimers h in
-      let h1 := if h_rtimer h then
-                  let '(g', outs) := gr_step (h_gr h) GTimerExpired in
-                  let rib1 := rib_drop (h_rib h) (delete_fams outs) in
-                  match start_llgr outs with
-                  | Some l => upd_h h g' false (map fst l) (rib_mark_llgr rib1 (map fst l))
-                  | None => upd_h h g' false [] rib1
-                  end
-                else upd_h h (h_gr h) false [] (h_rib h) in
-      fold_left (fun hh f =>
-                   let '(g', outs) := gr_step (h_gr hh) (GLlgrTimerExpired f) in
-                   upd_h hh g' (h_rtimer hh) (h_ltimers hh) (rib_drop_llgr_stale (h_rib hh) (delete_llgr_fams outs)))
-                armed h1
+      let h1 := if h_rtimer h then restart_handler h [] else upd_h h (h_gr h) false [] (h_rib h) in
+      fold_left llgr_handler armed h1
   | HSetAdminDown b =>
       {| h_gr := h_gr h; h_rtimer := h_rtimer h; h_ltimers := h_ltimers h; h_rib := h_rib h;
          h_sess := h_sess h; h_gen := h_gen h; h_admin_down := b |}
@@ -329,12 +350,19 @@ Definition run_gr_case (ins : list grinput) : val := VL (observe_gr GIdle ins).
 Definition v_route (r : route) : val :=
   VL [VN (r_fam r); VN (r_id r); VN (r_sess r); VB (r_stale r); VB (r_llgr r); VB (r_no_llgr r); VB (r_llgr_comm r)].
 
+Definition v_negotiated (s : option session) : val :=
+  match s with
+  | None => VL []
+  | Some s => VL [VOpt (fun g => match g with (l, rt, nb) => VL [VNs l; VN rt; VB nb] end) (s_gr s);
+                  VOpt v_pairs (s_llgr s)]
+  end.
+
 Fixpoint observe_h (h : hstate) (evs : list hevent) : list val :=
   match evs with
   | [] => []
   | e :: r => let h' := h_step h e in
               VL [VB (is_peer_restarting (h_gr h')); VB (h_rtimer h'); VNs (h_ltimers h');
-                  VList v_route (h_rib h')] :: observe_h h' r
+                  VList v_route (h_rib h'); v_negotiated (h_sess h')] :: observe_h h' r
   end.
 
 Definition run_h_case (evs : list hevent) : val := VL (observe_h h0 evs).
